@@ -40,10 +40,30 @@ static size_t rfc_number(const unsigned char *b, size_t n)
     return i;
 }
 
+static int body(void);
 int main(VF_MAIN_ARGS)
 {
-    parse_buffer buf; cJSON item; unsigned char *content; cJSON_bool ok; size_t off, avail, lit, k;
     VF_INIT(); VF_LIBC_ASSUME();
+#ifdef VF_NATIVE
+    if (getenv("VF_SEARCH")) {
+        /* the strtod contract over-approximates the C library in the VALUE it returns (and so in whether a range error is flagged): when the
+         * solver's witness needs a range error, look for a literal of the same shape that really has one: exponent digits all 9, first digit 1 */
+        size_t e, k2, fd; unsigned v;
+        for (e = IN.off; e < M && IN.b[e] != 'e' && IN.b[e] != 'E'; e++) { }
+        if (e < M) {
+            for (k2 = e + 1; k2 < M; k2++) { if (dig(IN.b[k2])) IN.b[k2] = '9'; else if (k2 > e + 1 || (IN.b[k2] != '+' && IN.b[k2] != '-')) break; }
+            fd = IN.off + (IN.b[IN.off] == '-' ? 1 : 0);
+            for (v = 0; v < 2; v++) { if (v == 1 && fd < e && IN.b[fd] == '0') IN.b[fd] = '1'; body(); }
+        }
+        return 0;
+    }
+#endif
+    return body();
+}
+static int body(void)
+{
+    parse_buffer buf; cJSON item; unsigned char *content; cJSON_bool ok; size_t off, avail, lit, k;
+    vf_strtod_calls = 0;
 #ifdef OFF0
     VF_ASSUME(IN.off == 0);
 #endif
@@ -98,10 +118,11 @@ int main(VF_MAIN_ARGS)
         if (good) lit = IN.lit;
     }
 #else
-    lit = VF_ON(2) ? rfc_number(content + off, avail) : 0;
+    lit = (VF_ON(2) || VF_ON(4)) ? rfc_number(content + off, avail) : 0;
 #endif
     if (lit > 0 && lit <= 63 && (lit == avail || !numchar(content[off + lit]))) {
         VF_AP(2, ok, "C02 RFC 8259 number literal is accepted");
+        VF_AP(4, ok && buf.offset == off + lit, "C04 the text print_number emits is an RFC 8259 literal: every such literal, whatever its magnitude, is read back whole");
         VF_AP(2, buf.offset == off + lit, "C02 offset advances by the literal length");
         if (vf_strtod_calls == 1) {
             VF_AP(2, vf_strtod_arglen == lit, "C02 strtod receives exactly the literal");
